@@ -17,13 +17,13 @@ CHECKS = {
    note="64-bit hashing is not evaluated in TLA+: positions come from the code (logged). Exhaustive only for the tiny table."),
 }
 
-STORE_T = "TLA+ spec Store.tla (write pipeline: shard map, bounded queue, maintenance batches, eviction, expiry, Wait, Close) model-checked by TLC; TLC behaviours (StoreSim) replayed into the real Store by a gate scheduler over verif hook points; every recorded trace validated by TLC (StoreTrace observer); for C01 C02 C05 C06 C10 C13 C16 also sequential programs through the public API (cache.go / builder.go) validated by TLC against the sequential observer ApiTrace.tla"
+STORE_T = "TLA+ spec Store.tla (write pipeline: shard map, bounded queue, maintenance batches, eviction, expiry, Wait, Close) model-checked by TLC; TLC behaviours (StoreSim) replayed into the real Store by a gate scheduler over verif hook points; every recorded trace validated by TLC (StoreTrace observer); for C01 C02 C05 C06 C10 C13 C16 also sequential programs through the public API (cache.go / builder.go) validated by TLC against the sequential observer ApiTrace.tla; for C01 C05 C06 C13 also hook-free concurrent histories of the public API (calls, results and counter stamps only) for which TLC searches a linearization against the sequential register of LinSearch.tla"
 CHECKS.update({
  "C01": dict(level="model_checking", ref="4 C01", technique=STORE_T,
    text="TLC explores all interleavings of two-phase writes, deletes, evictions and expiries of Store.tla for small constants (removal of a map slot is by identity); "
         "TLC-generated interleavings are replayed into the real cache and free-running concurrent histories (distinct value per write; plain, loading, doorkeeper, entry pool) are recorded; "
         "TLC validates every trace against the sequential map: each hit returns the latest value of that key's entry, each miss is justified, returned values equal the values read under the lock, and the resident set equals the history at every quiescent snapshot.",
-   note="Linearization points are the hook events emitted under the shard lock (trusted to be placed inside the critical sections); exhaustive only for the small constants. The atomicity of a shard section is the contract of the reader-biased lock: the real RBMutex is stepped through its atomic operations and compared with RBMutex.tla (model-checked under C19)."),
+   note="Linearization points are the hook events emitted under the shard lock; independently of them, hook-free histories (calls and results only) are decided by a linearization search in TLC (LinSearch.tla) - this found D21 (a late caller joined a finished single-flight call and was handed a deleted value), since repaired; the loading path is also model-checked as LoadFlight.tla. Exhaustive only for the small constants. The atomicity of a shard section is the contract of the reader-biased lock: the real RBMutex is stepped through its atomic operations and compared with RBMutex.tla (model-checked under C19)."),
  "C02": dict(level="model_checking", ref="4 C02", technique=STORE_T,
    text="TLC checks AcctInv/InFlightBound of Store.tla over all arrival orders of insert/update/delete events, batch boundaries, evictions and the expiry re-check window; "
         "the same interleavings are forced on the real Store by parking its goroutines at hook points (incl. the yield before the deadline re-check); white-box snapshots at quiescent points "
@@ -76,7 +76,7 @@ CHECKS.update({
    technique="TLA+ spec Hybrid.tla (memory tier, secondary tier, from-secondary flag, hand-off queue, worker copy and removal by identity) model-checked by TLC; histories of the real hybrid store with a scripted secondary store validated by TLC (HybridTrace freshness observer)",
    text="TLC checks Fresh (a Get never returns a value other than the last Set's, never a deleted or expired one) and Demoted over all interleavings of Set/Get/Delete/evict/expire/worker steps for 2 keys; seeded histories run on the real hybrid store (simple and loading, two workers, virtual clock, secondary calls logged by the scripted store) "
         "and TLC validates every Get against the last completed Set/Delete of its key and its deadline, distinguishing values served from memory and from the secondary tier.",
-   note="Sequential client with asynchronous workers; the exhaustive run uses the design with the three known hybrid findings repaired (FixB/FixC/FixD), HybridMC_pinned.cfg (the code as it is) violates Fresh/Demoted as recorded in known_findings.json."),
+   note="Sequential client with asynchronous workers (plus a late-join scenario: the promoting Get held between its unlock and the removal of its single-flight call while the key is deleted from both tiers or expires, D21); the exhaustive run uses the design with the three known hybrid findings repaired (FixB/FixC/FixD), HybridMC_pinned.cfg (the code as it is) violates Fresh/Demoted as recorded in known_findings.json."),
  "C15": dict(level="model_checking", ref="4 C15",
    technique="TLA+ spec Hybrid.tla model-checked by TLC (Demoted); histories of the real hybrid store with a scripted, optionally failing secondary store validated by TLC (HybridTrace demotion / memory-bound observer)",
    text="TLC checks that once the workers are idle every live key is in one of the tiers with its value; on the real store every capacity eviction is followed up: hand-off, worker copy (secondary Set logged) before the slot is removed, direct removal only when the secondary tier holds the identical value; "
@@ -86,7 +86,7 @@ CHECKS.update({
    technique="TLA+ spec SingleFlight.tla (Group.Do with pooled call records, loader outcomes ok/err/panic/Goexit) model-checked by TLC; TLC schedules replayed on the real Group through verif hook points; cache-level loading histories with failing/panicking loaders validated by TLC (SingleFlightTrace, StoreTrace)",
    text="TLC checks one-loader-per-key, shared results by invocation, no finished call left in the table, no record re-initialised while referenced and return of every call for 2-3 callers; the schedules are executed on the real Group (callers parked at hook points, scripted loader outcomes); "
         "at cache level concurrent loading Gets with slow loaders that succeed, fail, panic or Goexit are recorded and TLC validates non-overlapping loader runs per key, results taken from an overlapping load, admission with the loader's cost and TTL, nothing stored after a failure and no blocked shard afterwards.",
-   note="Record identities and dups counters are read white-box at the hook points."),
+   note="Record identities and dups counters are read white-box at the hook points. The composition of the loading Get with the single-flight table (lookup, join or lead, lock, load and store, unlock, finish; Set/Delete/loss on the same key) is LoadFlight.tla: the repaired design satisfies Served/OneLoader/Quiet/Returns, the design before the repair D21 must violate Served; a late-join scenario holds the real leader between unlock and table removal."),
  "C16": dict(level="model_checking", ref="4 C16", technique=STORE_T,
    text="Traces of concurrent drivers carry Stats/Len/Range/EstimatedSize results; TLC compares them with its own ledger at quiescent points: hits+misses = Get calls, hits = Gets answered from the map, Len = resident entries, "
         "EstimatedSize = their cost, Range visits each resident unexpired key once with its current value and stops when told. The model-level part is the accounting invariant of Store.tla.",
